@@ -257,7 +257,7 @@ class Profile:
     """feature weights; a profile is a dict stmt-kind -> weight plus switches"""
     def __init__(self, **kw):
         self.w = dict(match=6, append=3, appc=1, assign=3, assigns=1, delete=1, hook=2, finish=1, yield_=0, wait=1, loop=2,
-                      case=3, gcase=0, optional=2, try_=2, foreach=1, if_=2, break_=0)
+                      case=3, gcase=0, optional=2, try_=2, foreach=1, if_=2, break_=0, ifact=2)
         self.max_depth = 3
         self.max_stmts = 5
         self.eof = False
@@ -428,7 +428,10 @@ class Gen:
             return None
         k = r.choice(opts)
         if k == "assign":
-            return ("assign", r.choice(ints), self.expr(allow_last=after_match))
+            v = r.choice(ints)
+            if r.random() < 0.35:
+                return ("assign", v, ("bin", "+", ("var", v), ("num", 1)))
+            return ("assign", v, self.expr(allow_last=after_match))
         if k == "assigns":
             v = r.choice(strs)
             sz = [o for o in self.outs if o["name"] == v][0]
@@ -501,6 +504,29 @@ class Gen:
         if k in ("assign", "assigns", "delete", "hook", "appc"):
             a = self.action(after_match)
             return None if a is None else (a, None, set(), True, False)
+        if k == "ifact":
+            # action-only if: conditional action / conditional break / conditional finish, often on $last or a counter
+            ints = self.ints()
+            conds = []
+            if after_match:
+                conds.append(("bin", r.choice(["==", "!=", "<", ">"]), ("last",), ("chr", r.choice(CONTENT + b"09"))))
+            if ints:
+                conds.append(("bin", r.choice(["==", ">=", "<", "!="]), ("var", r.choice(ints)), ("num", r.choice([0, 1, 2, 3]))))
+            if self.strs():
+                conds.append(("bin", r.choice(["==", ">", "<"]), ("len", r.choice(self.strs())), ("num", r.choice([0, 1, 2]))))
+            if not conds:
+                return None
+            body_opts = []
+            a = self.action(after_match)
+            if a: body_opts += [[a]] * 2
+            if loops: body_opts += [[("break", None)]] * 3
+            body_opts += [[("finish", r.choice([None] + self.fcodes))]]
+            body = r.choice(body_opts)
+            els = None
+            if r.random() < 0.3:
+                a2 = self.action(after_match)
+                els = [a2] if a2 else None
+            return ("if", [(r.choice(conds), body)], els), None, set(), True, False
         if k == "finish":
             return ("finish", r.choice([None] + self.fcodes)), None, set(), True, True
         if k == "yield_":
@@ -638,3 +664,66 @@ def features(p):
                 if s[2]: go(s[2])
     go(p["body"])
     return c
+
+
+# ---------------------------------------------------------------------------
+# near-invalid programs for C04: loops / handlers with paths that consume nothing
+# ---------------------------------------------------------------------------
+def gen_spin_candidate(rng):
+    """programs whose loops have non-consuming paths guarded by conditional breaks / finishes, empty else
+    arms, optional-only bodies, handlers re-entering their try: most must be REJECTED by the compiler,
+    the accepted ones must not spin"""
+    lits = [b"a", b"b", b"cd", b"e", b"x"]
+    def act():
+        return rng.choice([("assign", "t", ("bin", "+", ("var", "t"), ("num", 1))), ("assign", "t", ("num", rng.choice([0, 3]))),
+                           ("assign", "u", ("var", "t")), ("hook", "hk")])
+    def cond():
+        return ("bin", rng.choice(["==", "!=", "<", ">"]), ("var", rng.choice(["t", "u"])), ("num", rng.choice([0, 1, 3])))
+    def element(depth, labels):
+        k = rng.choice(["case_else", "case_else", "optional", "try_empty", "try_act", "ifbreak", "ifbreak", "iffinish", "ifmatch", "act",
+                        "lit", "lit", "nested", "wait", "foreach"])
+        lit = ("lit", rng.choice(lits))
+        if k == "case_else":
+            body = [act()] if rng.random() < 0.6 else []
+            els = [] if rng.random() < 0.6 else [act()]
+            if rng.random() < 0.2:
+                els = [("break", None)]
+            return ("case", [([lit], body), (["else"], els)])
+        if k == "optional":
+            return ("optional", [("match", lit)] + ([act()] if rng.random() < 0.5 else []))
+        if k == "try_empty":
+            return ("try", [("match", lit)], rng.choice([None, ["nomatch"]]), [])
+        if k == "try_act":
+            return ("try", [("match", lit), act()], rng.choice([None, ["nomatch"]]), [act()] + ([("break", None)] if rng.random() < 0.3 else []))
+        if k == "ifbreak":
+            return ("if", [(cond(), [("break", rng.choice(labels) if labels and rng.random() < 0.3 else None)])], None if rng.random() < 0.7 else [act()])
+        if k == "iffinish":
+            return ("if", [(cond(), [("finish", None)])], None)
+        if k == "ifmatch":
+            return ("if", [(cond(), [("match", lit)])], None if rng.random() < 0.5 else [("match", ("lit", b"y"))])
+        if k == "act":
+            return act()
+        if k == "lit":
+            return ("match", lit)
+        if k == "wait":
+            return ("wait", lit)
+        if k == "foreach":
+            return ("foreach", [("match", ("re", ("plus", ("cls", "\\d"))))], [act()])
+        if k == "nested" and depth < 2:
+            lab = "M%d" % rng.randrange(100) if rng.random() < 0.5 else None
+            body = [element(depth + 1, labels + ([lab] if lab else [])) for _ in range(rng.randint(1, 3))]
+            return ("loop", lab, body)
+        return ("match", lit)
+    lab = "L0" if rng.random() < 0.4 else None
+    body = [element(0, [lab] if lab else []) for _ in range(rng.randint(1, 4))]
+    stmts = []
+    if rng.random() < 0.3:
+        stmts.append(("match", ("lit", b"s")))
+    outer = ("loop", lab, body)
+    if rng.random() < 0.25:
+        outer = ("try", [outer], None, [act()] if rng.random() < 0.5 else [])
+    stmts.append(outer)
+    stmts.append(("match", ("lit", b"end")))
+    p = {"outs": [{"type": "int", "name": "t", "default": 0}, {"type": "int", "name": "u", "default": None}], "hooks": ["hk"],
+         "finish_codes": [], "yield_codes": [], "body": stmts}
+    return p, pr_prog(p)
